@@ -41,8 +41,11 @@ MANIFEST = dict(
          "on the protocol objects + blocking calls`, maximal progress (time passes only when no thread can run), "
          "atomic watchdog scan; finer interleavings (every libc call a scheduling point, non-atomic scan) are "
          "exercised against the monitors only; the transport is the stub module below the real rcmd.c: connect-time "
-         "messages are the stub's imitation of xrcmd.c, `command timeout` is dsh.c's own; -k fail-fast, a teardown "
-         "that blocks forever (exec child ignoring SIGTERM), DNS and real signal delivery are outside the model")
+         "messages are the stub's imitation of xrcmd.c, `command timeout` is dsh.c's own; the teardown is a phase of "
+         "the model (rcmd_destroy returns when the scripted command is gone: exited by itself, or killed by the "
+         "forwarded SIGTERM unless it ignores it; the slot is released only then); a command that never goes makes "
+         "dsh() wait for ever — theorem immortal_never_returns, finding F07-TEARDOWN-WAIT, replayed on the real "
+         "`pdsh -R exec -u 1`; -k fail-fast, DNS and real signal delivery are outside the model")
 
 
 def gen_random(rng, nmax):
@@ -72,6 +75,8 @@ def gen_random(rng, nmax):
         c["pct"] = [3, 40 * n]
     if rng.random() < 0.15:
         c["spurious"] = [150, rng.randrange(1, 4)]
+    if rng.random() < 0.25:
+        c["opts"]["lowfds"] = rng.choice([1, 1, 1, 3, 7])   # descriptors 0 / 0,1 / 0,1,2 are free: connections get them
     return c
 
 
@@ -84,8 +89,11 @@ def vectors(n, keys, settings, fanouts, rng):
             for f in fanouts:
                 if f > n + 1:
                     continue
-                yield T.mk_case([A[k] for k in vec], f, ct, ut, sopt, rng.randrange(1, 1 << 30),
-                                strategy=rng.choice(["uniform", "uniform", "starveD", "eagerD"]))
+                c = T.mk_case([A[k] for k in vec], f, ct, ut, sopt, rng.randrange(1, 1 << 30),
+                              strategy=rng.choice(["uniform", "uniform", "starveD", "eagerD"]))
+                if rng.random() < 0.2:
+                    c["opts"]["lowfds"] = rng.choice([1, 1, 7])
+                yield c
 
 
 def run(ctx):
@@ -99,7 +107,10 @@ def run(ctx):
            "rule": "one evaluation = one complete run of the unmodified dsh() under the controlled scheduler with "
                    "virtual clock (maximal progress) and one fault vector = one behaviour per target from the alphabet "
                    "{ok, ok2, silent, refuse, refuse-late, hang-connect, hang-after, hang-silent, exit3, killed, "
-                   "close-out-early, close-err-early, read-error, conn-at/over/far, cmd-at/over/far (connect delay resp. "
+                   "close-out-early, close-err-early, read-error, chatty, chatty-odd, chatty-ends, outlives (closes its "
+                   "streams, lives 5 s more), stubborn (ignores SIGTERM, lives 6 s), lingers (dies 3 s after SIGTERM), "
+                   "immortal (never exits, ignores SIGTERM), outlives-forever (closes its streams, never exits), "
+                   "conn-at/over/far, cmd-at/over/far (connect delay resp. "
                    "stream end exactly at / just over / beyond timeout+WDOG_POLL)} or free-form, x timeout setting "
                    "(connect_timeout 0..5, command_timeout 0..4, -s on/off) x fanout 1..N+1 x schedule (uniform / PCT "
                    "/ starve-D / eager-D, some with spurious wake-ups); watchdog phase varies with the durations of the "
@@ -160,8 +171,9 @@ def run(ctx):
                      "that lands elsewhere is lost (the no-op handler runs) and is repeated at the next watchdog poll",
                      "POSIX mutex / condition variable semantics as in C03/C04; pthread_create succeeds",
                      "the transport is scripted: connect result after d seconds or never, per-stream items at fixed "
-                     "delays after the connect; rcmd_destroy returns promptly (a teardown that blocks forever is a "
-                     "named runtime behaviour outside the model); no -k",
+                     "delays after the connect, the command's own life time, what SIGTERM does to it (dies after a "
+                     "grace period / ignores it); rcmd_destroy returns when the command is gone (exec / ssh transports: "
+                     "waitpid); no -k",
                      "constructs of the checked tree, detected by behaviour (wait-for-room, worker tests the command "
                      "timeout itself, dsh() stops the watchdog before returning): %s; the theorems hold for every "
                      "combination" % (variant,)],
@@ -202,7 +214,7 @@ def real_runs(ctx, cov):
         wall = time.time() - t0
         want = ["r0: out-r0", "r1: out-r1", "r2: before-r2", "r3: out-r3", "r4: late-r4", "r5: out-r5"]
         missing = [w for w in want if w not in out.splitlines()]
-        reported = any(l.endswith("r2: command timeout") for l in err.splitlines())
+        reported = any(re.match(r"^pdsh@[^:]*: r2: \S", l) for l in err.splitlines())   # under its name; any wording
         # sequential worst case at fanout 1: 1 s (r4) + command timeout 2 + WDOG_POLL 2, plus generous slack
         ok = not missing and reported and "r0: err-r0" in err.splitlines() and wall < 2 + 2 + 1 + 6 and rc >= 0
         real.append({"fanout": fan, "wall_s": round(wall, 2), "ok": ok, "missing": missing, "timeout_reported": reported})
@@ -226,8 +238,7 @@ def explore(ctx, exe_san, exe, variant, cov, dist):
                    for f in ctx.findings.get("findings", []))
 
     def consume(results):
-        fan = [r for r in results if r["case"]["yield"] == "fan" and r["crash"] is None and not r["bug"] and
-               not r["case"].get("nomodel")]
+        fan = [r for r in results if r["case"]["yield"] == "fan" and r["crash"] is None and not r["bug"]]
         batches = [T.project(r, *variant) for r in fan]
         verdicts = T.accept_all(ctx, batches) if batches else []
         for r, b, bad in zip(fan, batches, verdicts):
@@ -253,6 +264,9 @@ def explore(ctx, exe_san, exe, variant, cov, dist):
             cov["evaluations"] += 1
             st = (r["M"] or {}).get("status", "crash")
             dist["status"][st] = dist["status"].get(st, 0) + 1
+            dist["connections_on_low_descriptors"] = dist.get("connections_on_low_descriptors", 0) + \
+                sum(1 for _, ev in r["steps"] if len(ev) > 1 and ev[1] == "connectEnd" and ev[-1] == "lowfd") + \
+                sum(1 for _, t in r["inline"] if len(t) > 1 and t[1] == "connectEnd" and t[-1] == "lowfd")
             dist["yield"][r["case"]["yield"]] = dist["yield"].get(r["case"]["yield"], 0) + 1
             dist["N"][str(len(r["case"]["hosts"]))] = dist["N"].get(str(len(r["case"]["hosts"])), 0) + 1
             dist["excluded_runs"] += 1 if T.excluded(r["case"]) else 0
